@@ -10,8 +10,8 @@ answerer can't or won't use are rejected in place (port 0), not dropped."
 dropped or added) and, position by position, the answer's media name answers the offered one
 (`MediaAnswers`: the identical text, or the canonical lower-case name of the case-insensitively same kind).
 
-The model mirrors the repaired code (a5a045e: no direction attribute = sendrecv; f2c1d7e: unknown media
-types rejected in place; 2069d04: rejected sections keep their mid).
+The model mirrors the repaired code (a3a3c09: no direction attribute = sendrecv; f46bced: unknown media
+types rejected in place; 1e29db3: rejected sections keep their mid).
 
 `NoGlare st.trs offer` excludes exactly the recorded finding `remote-reuses-unapplied-local-mid`
 (`C07_counterexample`): a transceiver that already holds one of the offer's mids — because an unapplied
@@ -73,7 +73,7 @@ theorem C07_answer (st : St) (offer a : Desc) (h : (createAnswer st).2 = .ok a) 
       obtain ⟨_, hm, _⟩ := populateSecs_spec hs
       simp only
       rw [hm]
-      exact (matchLoop_unified .unified (by decide) _ _ _ _ _ hml hd).2.2 hg
+      exact (matchLoop_unified .unified _ (by decide) _ _ _ _ _ hml hd).2.2 hg
 
 /-- A PeerConnection whose transceivers have no mid yet (nothing negotiated, no CreateOffer called) answers
     every offer section by section: `NoGlare` is vacuous there. -/
